@@ -419,6 +419,31 @@ def register(R):
     R.symbolic_truth_kinds = set(getattr(R, 'symbolic_truth_kinds', ())) | {'future_set'}
     R.contract(f'{TC}.associated_futures', params={}, returns=ExtT('future_set'), self_type=ObjT(TC, shared=True))
 
+    # the getter itself, against its body: what it hands out is a NEW set (a caller iterating it is not disturbed by another
+    # thread's add/remove, and cannot disturb the tracked set), equal member for member to the tracked set as it was while the
+    # getter held the lock; the tracked set is left as it was.  (Reading the field outside its lock is refused by the monitor
+    # declared in c04.)
+    def assoc_read_post(c):
+        fld = c.newf('_associated_futures')
+        res = c.result
+        fresh = isinstance(res, Ref) and isinstance(fld, Ref) and res.oid != fld.oid and c.new.obj(res).kind == c.new.obj(fld).kind
+        if not fresh:
+            return {'returns_a_copy_not_the_tracked_set_itself': B(False)}
+        old = c.new.st.ghost.get(('mon_old', c.self.oid))
+        if old is None:
+            return {'returns_a_copy_not_the_tracked_set_itself': B(True), 'read_under_its_lock': B(False)}
+        p0 = old.obj(old.obj(c.self).fields['_associated_futures']).meta['present']
+        p1 = c.new.obj(fld).meta['present']
+        pr = c.new.obj(res).meta['present']
+        xr = z3.Const('xr_fut', p0.domain())
+        return {'returns_a_copy_not_the_tracked_set_itself': B(True),
+                'read_under_its_lock': B(True),
+                'copy_has_exactly_the_tracked_members': z3.ForAll([xr], z3.Select(pr, xr) == z3.Select(p0, xr)),
+                'tracked_set_untouched': z3.ForAll([xr], z3.Select(p1, xr) == z3.Select(p0, xr))}
+
+    ca = R.contracts[f'{TC}.associated_futures']
+    ca.props, ca.ensures, ca.raises, ca.old_at = ('C04', 'C05', 'C08'), assoc_read_post, {}, 'acquire'
+
     def reads_of(evs):
         return [e for e in evs if e.kind == 'call' and e.name.endswith('TransferCoordinator.associated_futures')]
 
